@@ -48,6 +48,18 @@ CP1252_CHARS = "".join(bytes([b]).decode("cp1252") for b in range(0x80, 0x100) i
 LATIN1_CHARS = "".join(chr(c) for c in range(0x80, 0x100))
 
 
+def _encodable(bits, charset, ascii_only):
+    codec = "ascii" if ascii_only else CODECS[charset]
+    out = []
+    for b in bits:
+        try:
+            b.encode(codec)
+            out.append(b)
+        except UnicodeEncodeError:
+            pass
+    return out
+
+
 def body_st(charset, ascii_only=False):
     if ascii_only:
         alpha = st.characters(min_codepoint=0x20, max_codepoint=0x7E)
@@ -61,7 +73,7 @@ def body_st(charset, ascii_only=False):
         st.sampled_from(["OFX><A>x</A></OFX", "OFX>\r\n<A>1\r\n</OFX", "A", "a>b<c", "OFX><A>AT&#38;T &#60;b&#62;</A></OFX", "OFX>" + "\n<A>1".join(["", "", "", "", "", "", "", "", "", "", "", ""]) + "\n</OFX", "OFX><A>ready?>go</A></OFX"]),
         st.text(alpha, min_size=0, max_size=30),
         # entity and character-reference spellings are body text like any other: the header parser hands them over verbatim
-        st.lists(st.one_of(st.sampled_from(ENTITY_BITS), st.text(alpha, min_size=0, max_size=4)), min_size=1, max_size=8).map("".join),
+        st.lists(st.one_of(st.sampled_from(_encodable(ENTITY_BITS, charset, ascii_only)), st.text(alpha, min_size=0, max_size=4)), min_size=1, max_size=8).map("".join),
     )
     if not ascii_only:
         # now and then a body well beyond any read-buffer size (8 KiB, 16 KiB, 64 KiB), filled with multi-byte characters so
